@@ -191,3 +191,42 @@ pub fn run(args: &[String]) {
     }
     println!("{{\"kind\":\"dense-summary\",\"callbacks\":{},\"failures\":{}}}", n_cb, n_fail);
 }
+
+/// C07 search side for the multistep method: BDF's interpolant "matches the accuracy of the step itself".  On the
+/// harmonic oscillator (exact flow = a rotation) the local error of the interpolant at interior points of a step, measured
+/// against the exact flow started from the step's left end, is compared with the local error of the step.
+pub fn bdf_dense(args: &[String]) {
+    let seed: u64 = args.get(0).and_then(|s| s.parse().ok()).unwrap_or(1);
+    let mut rng = Rng(seed ^ 0xBDFD);
+    let flow = |dt: f64, y: &[f64]| -> [f64; 2] { let (c, s) = (dt.cos(), dt.sin()); [c * y[0] + s * y[1], -s * y[0] + c * y[1]] };
+    let dist = |a: &[f64], b: &[f64]| -> f64 { ((a[0] - b[0]).powi(2) + (a[1] - b[1]).powi(2)).sqrt() };
+    let mut configs: Vec<(f64, f64, f64)> = vec![(0.0, 10.0, 1e-10), (10.0, 0.0, 1e-10), (0.0, 10.0, 1e-8), (0.0, 6.0, 1e-6)];
+    for _ in 0..4 { let back = rng.chance(0.4); let len = rng.range(6.0, 14.0); configs.push(if back { (len, 0.0, 10f64.powf(-rng.range(7.0, 10.5))) } else { (0.0, len, 10f64.powf(-rng.range(7.0, 10.5))) }); }
+    for (case, (t0, t1, rtol)) in configs.iter().enumerate() {
+        let p = Prob::new(Kind::Harmonic);
+        let o = Options::builder().method(Method::BDF).rtol(*rtol).atol(rtol * 1e-2).dense_output(true).build();
+        let (mut why, mut worst, mut checked, mut where_) = (String::new(), 0.0f64, 0usize, 0.0);
+        match solve_ivp(&p, *t0, *t1, &[1.0, 0.0], o) {
+            Ok(sol) => {
+                for w in 0..sol.t.len().saturating_sub(1) {
+                    let (a, b) = (sol.t[w], sol.t[w + 1]);
+                    if (a - t0).abs() < 3.0 { continue; } // start-up at low order and small steps
+                    let l = dist(&sol.y[w + 1], &flow(b - a, &sol.y[w]));
+                    if l < 1e-13 { continue; }
+                    for th in [0.15, 0.35, 0.5, 0.65, 0.85] {
+                        let t = a + th * (b - a);
+                        if let Ok(v) = sol.sol(t) {
+                            let i = dist(&v, &flow(t - a, &sol.y[w]));
+                            if i / l > worst { worst = i / l; where_ = t; }
+                        } else { why = format!("sol({}) failed inside a step", t); }
+                    }
+                    checked += 1;
+                }
+                if why.is_empty() && checked > 20 && worst > 3.0 { why = format!("BDF interpolant is {:.2} times less accurate than the step that contains t = {} ({} steps examined, rtol {:e})", worst, where_, checked, rtol); }
+            }
+            Err(e) => why = format!("solve_ivp error {:?}", e),
+        }
+        println!("{{\"kind\":\"bd\",\"case\":{},\"method\":\"BDF\",\"problem\":\"Harmonic\",\"x0\":{},\"xend\":{},\"rtol\":{},\"steps_checked\":{},\"worst_ratio\":{},\"finding_key\":\"c07-bdf-dense\",\"ok\":{},\"why\":{:?}}}",
+            case, t0, t1, jnum(*rtol), checked, jnum(worst), why.is_empty(), why);
+    }
+}
